@@ -939,7 +939,7 @@ func runC19(env *core.Env) {
 			c19Weak(env, w.uri, w.typ, w.typ == "")
 		}
 	}
-	for _, u := range []string{"", "Patient", "Patient/", "/Patient/1", "Foo/1", "patient/1", "Patient/1/_history", "Patient/1/_history/", "Patient/1/_History/2", "Patient/1/2/3", "http://h/ValueSet/v|1.0", "Patient/1#frag", "http://", "http:", "://x", "Patient/1|2", " Patient/1", "Patient/1 "} {
+	for _, u := range []string{"", "Patient", "Patient/", "/Patient/1", "Foo/1", "patient/1", "Patient/1/_history", "Patient/1/_history/", "Patient/1/_History/2", "Patient/1/2/3", "http://h/ValueSet/v|1.0", "Patient/1#frag", "http://h.example/fhir/Patient/123#", "urn:uuid:53fefa32-fcbb-4ff8-8a92-55ee120877b7#", "http://example.com/my-thing#", "Patient/123#", "http://h.example/fhir/Patient/123/_history/2#", "urn:oid:1.2.3#", "http://", "http:", "://x", "Patient/1|2", " Patient/1", "Patient/1 "} {
 		if mine() {
 			if u == "" {
 				env.Cover("form:empty")
@@ -1135,6 +1135,11 @@ func c19IsLaws(env *core.Env, rng *core.Rng) {
 	pool = append(pool, strongRef("Observation", "a", ""), &dtpb.Reference{Identifier: ident}, &dtpb.Reference{Identifier: ident, Display: &dtpb.String{Value: "d"}},
 		&dtpb.Reference{Reference: &dtpb.Reference_Fragment{Fragment: &dtpb.String{Value: "a"}}, Type: &dtpb.Uri{Value: "Patient"}},
 		&dtpb.Reference{Reference: &dtpb.Reference_Fragment{Fragment: &dtpb.String{Value: "a"}}},
+		&dtpb.Reference{Reference: &dtpb.Reference_Fragment{Fragment: &dtpb.String{Value: "a"}}, Type: &dtpb.Uri{Value: "Group"}},
+		&dtpb.Reference{Reference: &dtpb.Reference_Uri{Uri: &dtpb.String{Value: "#a"}}, Type: &dtpb.Uri{Value: "Group"}},
+		&dtpb.Reference{Reference: &dtpb.Reference_Uri{Uri: &dtpb.String{Value: "#a"}}},
+		&dtpb.Reference{Reference: &dtpb.Reference_Uri{Uri: &dtpb.String{Value: "#b"}}, Type: &dtpb.Uri{Value: "Patient"}},
+		strongRef("Group", "a", ""), &dtpb.Reference{Reference: &dtpb.Reference_Uri{Uri: &dtpb.String{Value: "Group/a"}}},
 		&dtpb.Reference{Reference: &dtpb.Reference_Uri{Uri: &dtpb.String{Value: "urn:uuid:53fefa32-fcbb-4ff8-8a92-55ee120877b7"}}}, &dtpb.Reference{})
 	n := len(pool)
 	is := make([][]bool, n)
